@@ -4,6 +4,80 @@ Import ListNotations.
 From V Require Import Base.Prelude Model.MiniGo.
 Open Scope Z_scope.
 
+(* ------------------------------------------------------------------ environments *)
+Lemma name_eqb_refl x : name_eqb x x = true.
+Proof. destruct x; simpl; auto using N.eqb_refl, Nat.eqb_refl. Qed.
+Lemma name_eqb_eq x y : name_eqb x y = true -> x = y.
+Proof. destruct x, y; simpl; try discriminate; intros H; try reflexivity.
+  - apply N.eqb_eq in H. now subst.
+  - apply Nat.eqb_eq in H. now subst.
+  - apply Nat.eqb_eq in H. now subst. Qed.
+Lemma name_eqb_sym x y : name_eqb x y = name_eqb y x.
+Proof. destruct x, y; simpl; auto using N.eqb_sym, Nat.eqb_sym. Qed.
+
+(* x is not bound in l *)
+Definition fresh (x : name) (l : env) : Prop := Forall (fun p => name_eqb x (fst p) = false) l.
+(* bindings of compiler-generated names only *)
+Definition nonuser (l : env) : Prop := Forall (fun p => is_user (fst p) = false) l.
+
+Lemma fresh_app x a b : fresh x (a ++ b) <-> fresh x a /\ fresh x b.
+Proof. apply Forall_app. Qed.
+Lemma fresh_rev x a : fresh x a -> fresh x (rev a).
+Proof. apply Forall_rev. Qed.
+
+Lemma lookup_app_fresh a b x : fresh x a -> lookup (a ++ b) x = lookup b x.
+Proof. induction 1 as [|[y w] t Hy _ IH]; [reflexivity|]. cbn [app lookup]. cbn [fst] in Hy. now rewrite Hy. Qed.
+Lemma lookup_here x v b : lookup ((x, v) :: b) x = Some v.
+Proof. cbn [lookup]. now rewrite name_eqb_refl. Qed.
+Lemma update_app_fresh a b x v : fresh x a ->
+  update (a ++ b) x v = match update b x v with Some b' => Some (a ++ b') | None => None end.
+Proof. induction 1 as [|[y w] t Hy _ IH]; [cbn [app]; destruct (update b x v); reflexivity|].
+  cbn [app update]. cbn [fst] in Hy. rewrite Hy, IH. destruct (update b x v); reflexivity. Qed.
+Lemma update_here x w v b : update ((x, w) :: b) x v = Some ((x, v) :: b).
+Proof. cbn [update]. now rewrite name_eqb_refl. Qed.
+
+Lemma lookup_user_nonuser loc en n : nonuser loc -> lookup (loc ++ en) (NUser n) = lookup en (NUser n).
+Proof. intros H. apply lookup_app_fresh. eapply Forall_impl; [|exact H]. intros [y w]. cbn [fst]. destruct y; simpl; congruence. Qed.
+
+(* pairwise distinct names *)
+Fixpoint distinct (xs : list name) : Prop :=
+  match xs with [] => True | x :: t => Forall (fun y => name_eqb y x = false) t /\ distinct t end.
+
+Lemma fresh_combine x (xs : list name) (vs : list val) : Forall (fun y => name_eqb x y = false) xs -> fresh x (combine xs vs).
+Proof. revert vs. induction xs as [|y t IH]; intros vs H; [constructor|]. destruct vs as [|v vs]; [constructor|].
+  inversion H; subst. constructor; auto. apply IH; auto. Qed.
+
+Lemma assign_all_app xs1 vs1 xs2 vs2 en : length xs1 = length vs1 ->
+  assign_all (xs1 ++ xs2) (vs1 ++ vs2) en =
+  match assign_all xs1 vs1 en with Some en' => assign_all xs2 vs2 en' | None => None end.
+Proof. revert vs1 en. induction xs1 as [|x t IH]; intros [|v vs1] en H; try discriminate; [reflexivity|].
+  cbn [app assign_all]. destruct (update en x v); [|reflexivity]. apply IH. now injection H. Qed.
+
+(* assigning the named results of a closure, laid out as  pre ++ rev (combine xs ws) ++ en *)
+Lemma assign_rev : forall (xs : list name) (ws vs : list val) (pre en : env),
+  length ws = length xs -> length vs = length xs -> distinct xs -> Forall (fun x => fresh x pre) xs ->
+  assign_all xs vs (pre ++ rev (combine xs ws) ++ en) = Some (pre ++ rev (combine xs vs) ++ en).
+Proof.
+  induction xs as [|x t IH]; intros ws vs pre en Hw Hv Hd Hf.
+  - destruct vs; [reflexivity|discriminate].
+  - destruct ws as [|w ws]; [discriminate|]. destruct vs as [|v vs]; [discriminate|].
+    destruct Hd as [Hx Hd]. inversion Hf as [|? ? Hfx Hft]; subst.
+    cbn [combine rev assign_all].
+    replace (pre ++ (rev (combine t ws) ++ [(x, w)]) ++ en) with ((pre ++ rev (combine t ws)) ++ (x, w) :: en)
+      by (rewrite <- !app_assoc; reflexivity).
+    rewrite update_app_fresh, update_here.
+    + replace ((pre ++ rev (combine t ws)) ++ (x, v) :: en) with (pre ++ rev (combine t ws) ++ ((x, v) :: en))
+        by (rewrite <- !app_assoc; reflexivity).
+      rewrite IH; auto; try (simpl in *; lia).
+      rewrite <- !app_assoc. reflexivity.
+    + apply fresh_app. split; auto. apply fresh_rev. apply fresh_combine.
+      eapply Forall_impl; [|exact Hx]. intros y Hy. now rewrite name_eqb_sym.
+Qed.
+
+Lemma bind_all_rev : forall xs vs en, length xs = length vs -> bind_all xs vs en = Some (rev (combine xs vs) ++ en).
+Proof. induction xs as [|x t IH]; intros [|v vs] en H; try discriminate; [reflexivity|].
+  cbn [bind_all combine rev]. rewrite IH by (now injection H). rewrite <- app_assoc. reflexivity. Qed.
+
 Section Facts.
   Variable err_text : err -> str.
   Variable self : stmt -> env -> trace -> sres.
@@ -98,6 +172,29 @@ Section Facts.
     end.
   Proof. reflexivity. Qed.
 
+  Lemma closure_results_cons x z t en' : closure_results ((x, z) :: t) en' =
+    match lookup en' x, closure_results t en' with Some v, Some r => Some (v :: r) | _, _ => None end.
+  Proof. reflexivity. Qed.
+
+  Lemma results_rev : forall (xs : list name) (zs vs : list val) (pre en : env),
+    length zs = length xs -> length vs = length xs -> distinct xs -> Forall (fun x => fresh x pre) xs ->
+    closure_results (combine xs zs) (pre ++ rev (combine xs vs) ++ en) = Some vs.
+  Proof.
+    induction xs as [|x t IH]; intros zs vs pre en Hz Hv Hd Hf.
+    - destruct vs; [reflexivity|discriminate].
+    - destruct zs as [|z zs]; [discriminate|]. destruct vs as [|v vs]; [discriminate|].
+      destruct Hd as [Hx Hd]. inversion Hf as [|? ? Hfx Hft]; subst.
+      cbn [combine rev]. rewrite closure_results_cons.
+      replace (pre ++ (rev (combine t vs) ++ [(x, v)]) ++ en) with ((pre ++ rev (combine t vs)) ++ (x, v) :: en)
+        by (rewrite <- !app_assoc; reflexivity).
+      rewrite lookup_app_fresh, lookup_here.
+      + replace ((pre ++ rev (combine t vs)) ++ (x, v) :: en) with (pre ++ rev (combine t vs) ++ ((x, v) :: en))
+          by (rewrite <- !app_assoc; reflexivity).
+        rewrite IH; auto; simpl in *; lia.
+      + apply fresh_app. split; auto. apply fresh_rev. apply fresh_combine.
+        eapply Forall_impl; [|exact Hx]. intros y Hy. now rewrite name_eqb_sym.
+  Qed.
+
   Definition rhs_eval (es : list expr) (en : env) (tr : trace) : eres :=
     match es with [e] => ev e en tr | _ => ev_list es en tr end.
 
@@ -117,6 +214,26 @@ Section Facts.
     | (r, en', tr') => (cast r, en', tr')
     end.
   Proof. destruct es as [|e [|e2 t]]; reflexivity. Qed.
+  Lemma ex_SSetIndex m k v en tr : ex (SSetIndex m k v) en tr =
+    match lookup en m with
+    | Some (VMap l) =>
+      match ev k en tr with
+      | (RVal [kv], en1, tr1) =>
+        match ev v en1 tr1 with
+        | (RVal [vv], en2, tr2) =>
+          match update en2 m (VMap (map_set l kv vv key_eqb)) with
+          | Some en3 => (RVal tt, en3, tr2)
+          | None => (RStuck, en2, tr2)
+          end
+        | (RVal _, en2, tr2) => (RStuck, en2, tr2)
+        | (r, en2, tr2) => (cast r, en2, tr2)
+        end
+      | (RVal _, en1, tr1) => (RStuck, en1, tr1)
+      | (r, en1, tr1) => (cast r, en1, tr1)
+      end
+    | _ => (RStuck, en, tr)
+    end.
+  Proof. reflexivity. Qed.
   Lemma ex_SIf c t f en tr : ex (SIf c t f) en tr =
     match ev c en tr with
     | (RVal [VBool b], en', tr') =>
@@ -201,6 +318,8 @@ Section Facts.
   Lemma pop_to_app (a b : env) : pop_to (length b) (a ++ b) = b.
   Proof. unfold pop_to. rewrite app_length. replace (length a + length b - length b)%nat with (length a) by lia.
     rewrite skipn_app. rewrite skipn_all. rewrite Nat.sub_diag. reflexivity. Qed.
+  Lemma pop_to_eqlen (a b : env) : length a = length b -> pop_to (length a) b = b.
+  Proof. intros H. unfold pop_to. rewrite H, Nat.sub_diag. reflexivity. Qed.
   Lemma pop_to_same (b : env) : pop_to (length b) b = b.
   Proof. apply (pop_to_app [] b). Qed.
 
@@ -220,4 +339,22 @@ Section Facts.
     - rewrite ev_EProbe. unfold ev1. rewrite IH. cbn [one]. now rewrite app_assoc.
     - rewrite ev_EBin. unfold ev1. rewrite IHa. cbn [one]. rewrite IHb. cbn [one]. rewrite Hop. now rewrite app_assoc.
   Qed.
+
+  (* pure expressions over user variables do not see compiler-generated bindings *)
+  Fixpoint user_only (e : expr) : bool :=
+    match e with
+    | EConst _ => true
+    | EVar x => is_user x
+    | EProbe _ a => user_only a
+    | EBin _ a b => user_only a && user_only b
+    | _ => false
+    end.
+
+  Lemma pure_eval_weaken en e v t : pure_eval en e v t -> user_only e = true ->
+    forall loc, nonuser loc -> pure_eval (loc ++ en) e v t.
+  Proof. induction 1 as [v|x v Hl|id a v t _ IH|op a b x y v ta tb _ IHa _ IHb Hop]; intros U loc Hn; cbn [user_only] in U.
+    - constructor.
+    - constructor. destruct x; try discriminate. now rewrite lookup_user_nonuser.
+    - constructor. auto.
+    - apply andb_prop in U as [U1 U2]. econstructor; eauto. Qed.
 End Facts.
